@@ -192,8 +192,8 @@ func showBindings(m map[string]*yang.Module) string {
 }
 
 type regObs struct {
-	Line    string   // canonical answer line
-	Process []string // per query: what Process() bound in a client module ("" = not resolved)
+	Line    string     // canonical answer line
+	Process []string   // per query: what Process() bound in a client module ("" = not resolved)
 	Multi   []multiObs // clients that carry several import / include statements (multi.go)
 	Crash   string
 }
@@ -1040,6 +1040,10 @@ func enumFileCases(thorough bool) []fileCase {
 
 func partB(f *lib.Flags, res *lib.Result, d *lib.Driver, distinct *lib.Distinct, work string) int64 {
 	cases := enumFileCases(f.Thorough())
+	// module names other than foo: names ending in the characters of `.yang`, names that are trimmed forms
+	// of one another, dots and dashes (names.go)
+	nameCases := enumNameCases(f.Thorough())
+	cases = append(cases, nameCases...)
 	nEnum := len(cases)
 	// corpus: the layouts of pkg/yang/testdata/find-file-test and of the task description
 	cases = append(cases,
@@ -1067,9 +1071,10 @@ func partB(f *lib.Flags, res *lib.Result, d *lib.Driver, distinct *lib.Distinct,
 	if f.Thorough() {
 		nRand = 60000
 	}
-	rng := f.Rand(2)
+	rng, rngName := f.Rand(2), f.Rand(5)
 	for i := 0; i < nRand; i++ {
-		cases = append(cases, randFileCase(rng))
+		// (half of them under a renaming foo -> N, fo -> T of a name family)
+		cases = append(cases, maybeRenameFile(rngName, randFileCase(rng)))
 	}
 	type probe struct {
 		ci, ri int
@@ -1104,7 +1109,7 @@ func partB(f *lib.Flags, res *lib.Result, d *lib.Driver, distinct *lib.Distinct,
 			// it is a plain result
 			req := findRequest("find", c.Root, ro.Calls, c.Names[ri])
 			probes = append(probes, probe{i, ri, req, ro.Line, c.Names[ri], ro.Calls})
-			if distinct.Add(req) && nontrivialFile(c.Root) {
+			if distinct.Add(req) && nontrivialFile(c.Root, c.Names[ri]) {
 				nontrivial++
 			}
 		}
@@ -1157,7 +1162,12 @@ func partB(f *lib.Flags, res *lib.Result, d *lib.Driver, distinct *lib.Distinct,
 			if v == "violates" {
 				ro := obs[p.ci].Reads[p.ri]
 				dis.Kind = "spec"
-				dis.What = fmt.Sprintf("C13 (b) `a module that is not yet loaded is fetched from the first search-path directory holding a candidate` fails: after AddPath%q%s Read(%q) answers [%s]; "+
+				clause := "a module that is not yet loaded is fetched from the first search-path directory holding a candidate"
+				if g := unhexLine(chosen(p.goLine)); strings.HasPrefix(g, "file ") && !strings.Contains(p.name, "/") && !strings.HasSuffix(p.name, ".yang") &&
+					!candidateOf(p.name, filepath.Base(strings.TrimPrefix(g, "file "))) {
+					clause = "choosing name.yang, else the name@YYYY-MM-DD.yang with the latest date, never a file belonging to a differently named module"
+				}
+				dis.What = fmt.Sprintf("C13 (b) `"+clause+"` fails: after AddPath%q%s Read(%q) answers [%s]; "+
 					"the search path as the calls registered it (AddPath arguments in order, only exact duplicates dropped, plus the directory of every file read from `.` or by explicit path) is %q and the specification chooses [%s] on it (model: [%s]); ms.Path is %q",
 					c.Add, map[bool]string{true: " + PathsWithModules(" + c.Walk + ")", false: ""}[c.Walk != ""], p.name, unhexLine(chosen(p.goLine)), ro.Calls, unhexLine(spec), unhexLine(chosen(ans[i])), ro.Path)
 			}
@@ -1203,6 +1213,7 @@ func partB(f *lib.Flags, res *lib.Result, d *lib.Driver, distinct *lib.Distinct,
 		}
 	}
 	res.Distribution["file_enumerated_layouts"] = nEnum
+	res.Distribution["file_enumerated_layouts_other_module_names"] = len(nameCases)
 	res.Distribution["file_random_layouts"] = nRand
 	res.Distribution["file_reads"] = len(probes)
 	res.Distribution["file_reads_that_found_a_file"] = found
@@ -1239,8 +1250,21 @@ func specFind(d *lib.Driver, root *node, path []string, name, goLine string) (st
 	return "violates", spec
 }
 
-// nontrivialFile: the layout has at least two candidate files for foo, or a candidate and a near miss.
-func nontrivialFile(n *node) bool {
+// nontrivialFile: the layout has at least two candidate files for the module asked for, or a candidate
+// and a near miss (a file that is not a candidate and shares the first two characters of the name).
+func nontrivialFile(n *node, asked string) bool {
+	name := asked
+	if i := strings.LastIndex(name, "/"); i >= 0 {
+		name = name[i+1:]
+	}
+	name = strings.TrimSuffix(name, ".yang")
+	if i := strings.Index(name, "@"); i >= 0 {
+		name = name[:i]
+	}
+	pre := name
+	if len(pre) > 2 {
+		pre = pre[:2]
+	}
 	cands, near := 0, 0
 	var walk func(n *node)
 	walk = func(n *node) {
@@ -1250,9 +1274,9 @@ func nontrivialFile(n *node) bool {
 				continue
 			}
 			switch {
-			case k.Name == "foo.yang" || (len(k.Name) == 19 && strings.HasPrefix(k.Name, "foo@") && strings.HasSuffix(k.Name, ".yang")):
+			case candidateOf(name, k.Name):
 				cands++
-			case strings.HasPrefix(k.Name, "foo") || strings.HasPrefix(k.Name, "red"):
+			case strings.HasPrefix(k.Name, pre):
 				near++
 			}
 		}
@@ -1336,10 +1360,14 @@ func main() {
 	res.Rule = "part (a): every sequence (with repetition) of at most N headers over the universe {m, m@2019-01-01, m@2020-01-01, " +
 		"m with both, n, n@2020-01-01, submodules s, s@2019-01-01, s with both, submodule m, and two names with '@': m@2020-01-01 without revision, m@x with revision (+2 more in the thorough tier)}, N = registry_max_enumerated_length, " +
 		"each loaded as a YANG text of its own, plus texts holding two statements (every pair of headers: alone, after every single load, followed by a load that may clash) or three (every triple), 14 import/include queries each (FindModule and Process()), plus the witnesses of D61 in both orders, plus seeded random sequences of 3-8 headers over names {m, mm, m-x, n, and non-identifiers m@2020-01-01, m@, @, m@2019-01-01@x, m.x, 9m, 'm x', m:n} " +
-		"with 0-3 revisions each, a quarter of them with revision arguments that are not dates; all load orders of one multiset are compared with one another. " +
+		"with 0-3 revisions each, a quarter of them with revision arguments that are not dates; all load orders of one multiset are compared with one another; " +
+		"imports and includes are judged per STATEMENT: besides one client module per query, the import queries FindModule could answer are put together into client modules that carry all of them as statements (several statements of one module name, with different revision-dates and without, under prefixes q0, q1, ...; forward, reverse and rotated statement order - all three for cases of at most 3 loads, one picked by a hash of the loads otherwise), likewise the include queries; " +
+		"after Process() every statement's Import.Module / Include.Module, what `uses q<j>:g` expands to and what `type q<j>:t` resolves to (every loaded module defines a grouping and a typedef that spell its own source position) must denote the module FindModule, the model and the specification name for that statement. " +
 		"part (b): real directory trees: every subset of a pool of candidate and near-miss names in one directory (current directory / path entry / below a `...` entry), " +
 		"every subset of {foo.yang, older, newer} in each of current directory, d1, d2 in both path orders, every subset of {exact, dated} in each of r, r/a, r/a/k, r/z under `r/...`, " +
-		"the layouts of pkg/yang/testdata/find-file-test, plus seeded random trees (depth <= 3, names from a pool of 30 file and 10 directory names, shuffled listing order) with " +
+		"the layouts of pkg/yang/testdata/find-file-test; the same for module names other than foo (10 families (N, T): N ends in each of the characters of `.yang` or has a tail made of them - d2-vlan, x-config, policy, meta, `rel.`, yang, conga, ietf.any - or has dots and dashes, T is what trimming those characters off N leaves (d2-vl, x-confi, ..., the empty name) or a proper prefix: " +
+		"every subset of {N.yang, two dated N, a near miss, T.yang, a dated T later than every dated N, a dated file of the longer name Nx} in one directory, reading N and T; every subset of dated-only candidates {N@2019, N@2020, T@2021} in d1 and of {N.yang, N@2018, T@2022} in d2, both path orders); " +
+		"plus seeded random trees (depth <= 3, names from a pool of 30 file and 10 directory names, shuffled listing order; half of them renamed foo -> N, fo -> T, foobar -> Nbar for a random family; a third of the random histories likewise, identifier families only) with " +
 		"random AddPath arguments (existing and missing directories, regular files, `...` suffixes, colon lists), optional PathsWithModules and 1-2 Reads. " +
 		"part (b), histories on one Modules value (lookup = Read / FindModule with or without revision-date / GetModule / Process with an unsatisfied import; every lookup of a module that is not loaded is compared with the model and the specification " +
 		"on the layout and ms.Path as they are at that moment, and with the same lookup on a fresh Modules value with the same Path): {4 path setups: AddPath d1 d2 / AddPath d1/... d2 / ms.Path assigned / colon list with near misses} x first lookup of foo (6 kinds, fails) x " +
@@ -1351,7 +1379,7 @@ func main() {
 		"spelling histories: one directory d registered twice in every ordered pair of 12 spellings (d, d/, d/., ./d, d//, absolute, e/../d, d/..., ./d/..., d//..., absolute/..., d/./...) by two calls, one call with two arguments or a colon list, another directory between them or not, candidates in d/lib alone, in d and d/lib, in e and d/lib, then one lookup; " +
 		"a file of d read by explicit path (4 spellings) before or after a recursive entry for d (5 spellings), then a lookup whose only candidate is below d; a Read / FindModule / Process that finds its file in the current directory (or AddPath of `.`) before or after `...` in 4 spellings; " +
 		"seeded random spelling histories (2-5 registrations of random spellings of directories of a random tree, preferably one registered before, by AddPath with one or two arguments or a colon list or by a Read by explicit path, then 1-2 lookups). " +
-		"distinct_nontrivial = distinct driver requests whose loads contain two headers of one kind and name (a), or whose tree holds two candidates or a candidate and a near miss (b), or distinct history prefixes ending in a lookup that follows an earlier lookup and at least one change of layout or path (histories)"
+		"distinct_nontrivial = distinct driver requests whose loads contain two headers of one kind and name (a), or whose tree holds two candidates for the module asked for or a candidate and a near miss - a file sharing the name's first two characters - (b), or distinct history prefixes ending in a lookup that follows an earlier lookup and at least one change of layout or path (histories)"
 	res.Write(f.Out)
 }
 
